@@ -259,7 +259,7 @@ def build(case, stale_initial):
 def instrument(sim, ctx):
     """wrap the generator and `step` of a (new or rebuilt) simulation object"""
     n = len(sim.atoms)
-    sim._rng = Recorder(sim._rng, ctx)
+    common.set_rng(sim, Recorder(common.get_rng(sim), ctx))
     inner = sim.step
 
     def step():
@@ -342,7 +342,7 @@ def execute(case, events, stale_initial=True):
     return {
         "terminated": terminated, "records": ctx["records"], "stream": ctx["log"], "unknown": ctx["unknown"][:5],
         "stream_mismatch": ctx["stream_mismatch"][:5], "same_class": same_class,
-        "rng_state_is_reference": sim._rng.bit_generator.state == ctx["ref"].bit_generator.state,
+        "rng_state_is_reference": common.get_rng(sim).bit_generator.state == ctx["ref"].bit_generator.state,
         "shaped_masses": flat(sim.shaped_masses, n),
     }
 
